@@ -1,4 +1,5 @@
 import Chain33Model.Proofs.C10Multi
+import Chain33Model.Proofs.C10JoinOps
 /-!
 C10 — Indexed tables keep rows and indexes consistent.  Property theorems only.
 
@@ -343,3 +344,257 @@ theorem multi_op_refines_full_false_c : ¬ multi_op_refines_full := by
   decide
 
 end C10
+
+/-! ### join tables (Model/C10Join.lean) -/
+namespace C10J
+open C09 (Bytes get)
+open C10 (NoSep)
+
+/-- FULL statement for join tables, one operation between two saves: any operation on the left
+table (its row naming an existing game) is answered like the map and the save brings left table,
+right table and BOTH join indexes to the encoding of the maps (no stale, no missing join entry). -/
+def join_single_op_refines_full : Prop :=
+  ∀ (db : TDB) (s : JSpec) (op : LOp),
+    JRep db s → Integrity s → NoSep op.tx →
+    (match op with
+     | .add _ g _ | .replace _ g _ | .update _ g _ => NoSep g ∧ s.R g ≠ none
+     | .del _ => True) →
+    (execL db initJT op).2 = (specL s op).2 ∧
+    ∃ kvs jt2, saveJoin db (execL db initJT op).1 = .ok (kvs, jt2) ∧ JRep (applyKVs db kvs) (specL s op).1
+
+/-- PARTIAL (added hypothesis inside `LOpOK`: rewriting an existing left row keeps its foreign key,
+forced by S-C10d): one buffered operation on the left table — Add, Replace, Update of the non-key
+index field, Del — is answered like the map, `JoinTable.Save` succeeds and brings the db to the
+encoding of the maps after the operation: left records, right records and both join indexes
+"addr#status" / "#status" hold exactly one entry per joined row under its current value. -/
+theorem join_single_op_refines_partial (db : TDB) (s : JSpec) (op : LOp)
+    (hrep : JRep db s) (hint : Integrity s) (htx : NoSep op.tx) (hok : LOpOK s op) :
+    (execL db initJT op).2 = (specL s op).2 ∧
+    ∃ kvs jt2, saveJoin db (execL db initJT op).1 = .ok (kvs, jt2) ∧ JRep (applyKVs db kvs) (specL s op).1 := by
+  have hnothing : ∀ s', (∀ p, s'.L p = s.L p) → (∀ p, s'.R p = s.R p) →
+      ∃ kvs jt2, saveJoin db initJT = .ok (kvs, jt2) ∧ JRep (applyKVs db kvs) s' :=
+    fun s' h1 h2 => ⟨[], initJT, save_nothing db, jrep_congr db s s' h1 h2 hrep⟩
+  cases op with
+  | add tx g a =>
+    simp only [LOp.tx] at htx
+    obtain ⟨hg, hRne⟩ := hok
+    obtain ⟨st, hR⟩ := Option.ne_none_iff_exists'.1 hRne
+    have hdl := left_data_of_rep db s tx hrep htx
+    have hdr := right_data_of_rep db s g st hrep hg hR
+    cases hL : s.L tx with
+    | none =>
+      rw [hL] at hdl
+      rw [exec_add_new db tx g a hdl]
+      obtain ⟨kvs, jt2, h1, h2⟩ := save_add db tx g a st hdr
+      simp only [specL, hL]
+      exact ⟨trivial, kvs, jt2, h1, jrep_add db s tx g a st kvs hrep htx hL hR h2⟩
+    | some la =>
+      rw [hL] at hdl
+      rw [exec_add_dup db tx g a _ hdl]
+      simp only [specL, hL]
+      exact ⟨trivial, hnothing s (fun _ => rfl) (fun _ => rfl)⟩
+  | replace tx g a =>
+    simp only [LOp.tx] at htx
+    obtain ⟨hg, hRne, hfk⟩ := hok
+    obtain ⟨st, hR⟩ := Option.ne_none_iff_exists'.1 hRne
+    have hdl := left_data_of_rep db s tx hrep htx
+    have hdr := right_data_of_rep db s g st hrep hg hR
+    cases hL : s.L tx with
+    | none =>
+      rw [hL] at hdl
+      rw [exec_replace_new db tx g a hdl]
+      obtain ⟨kvs, jt2, h1, h2⟩ := save_add db tx g a st hdr
+      simp only [specL]
+      exact ⟨trivial, kvs, jt2, h1, jrep_add db s tx g a st kvs hrep htx hL hR h2⟩
+    | some la =>
+      obtain ⟨g0, a0⟩ := la
+      have hg0 : g0 = g := hfk _ hL
+      subst hg0
+      rw [hL] at hdl
+      rw [exec_replace_old db tx g0 a0 a hdl]
+      simp only [specL]
+      by_cases ha : a = a0
+      · subst ha
+        obtain ⟨jt2, h1⟩ := save_update_same db tx g0 a
+        refine ⟨trivial, [], jt2, h1, jrep_congr db s _ ?_ (fun _ => rfl) hrep⟩
+        intro p
+        by_cases hp : p = tx
+        · subst hp; simp [hL]
+        · simp [hp]
+      · obtain ⟨kvs, jt2, h1, h2⟩ := save_update db tx g0 a0 a st ha hdr
+        exact ⟨trivial, kvs, jt2, h1, jrep_update db s tx g0 a0 a st kvs hrep htx hL hR ha h2⟩
+  | update tx g a =>
+    simp only [LOp.tx] at htx
+    obtain ⟨hg, hRne, hfk⟩ := hok
+    obtain ⟨st, hR⟩ := Option.ne_none_iff_exists'.1 hRne
+    have hdl := left_data_of_rep db s tx hrep htx
+    have hdr := right_data_of_rep db s g st hrep hg hR
+    cases hL : s.L tx with
+    | none =>
+      rw [hL] at hdl
+      rw [exec_update_missing db tx g a hdl]
+      simp only [specL, hL]
+      exact ⟨trivial, hnothing s (fun _ => rfl) (fun _ => rfl)⟩
+    | some la =>
+      obtain ⟨g0, a0⟩ := la
+      have hg0 : g0 = g := hfk _ hL
+      subst hg0
+      rw [hL] at hdl
+      rw [exec_update_old db tx g0 a0 a hdl]
+      simp only [specL, hL]
+      by_cases ha : a = a0
+      · subst ha
+        obtain ⟨jt2, h1⟩ := save_update_same db tx g0 a
+        refine ⟨trivial, [], jt2, h1, jrep_congr db s _ ?_ (fun _ => rfl) hrep⟩
+        intro p
+        by_cases hp : p = tx
+        · subst hp; simp [hL]
+        · simp [hp]
+      · obtain ⟨kvs, jt2, h1, h2⟩ := save_update db tx g0 a0 a st ha hdr
+        exact ⟨trivial, kvs, jt2, h1, jrep_update db s tx g0 a0 a st kvs hrep htx hL hR ha h2⟩
+  | del tx =>
+    simp only [LOp.tx] at htx
+    have hdl := left_data_of_rep db s tx hrep htx
+    cases hL : s.L tx with
+    | none =>
+      rw [hL] at hdl
+      rw [exec_del_missing db tx hdl]
+      simp only [specL, hL]
+      exact ⟨trivial, hnothing s (fun _ => rfl) (fun _ => rfl)⟩
+    | some la =>
+      obtain ⟨g0, a0⟩ := la
+      obtain ⟨hg, hRne⟩ := hint tx _ hL
+      obtain ⟨st, hR⟩ := Option.ne_none_iff_exists'.1 hRne
+      have hdr := right_data_of_rep db s g0 st hrep hg hR
+      rw [hL] at hdl
+      rw [exec_del_old db tx g0 a0 hdl]
+      obtain ⟨kvs, jt2, h1, h2⟩ := save_del db tx g0 a0 st hdr
+      simp only [specL, hL]
+      exact ⟨trivial, kvs, jt2, h1, jrep_del db s tx g0 a0 st kvs hrep htx hL hR h2⟩
+
+/-! witnesses -/
+
+def bG0 : Bytes := [103, 48]
+def bG1 : Bytes := [103, 49]
+def bG2 : Bytes := [103, 50]
+def bT0 : Bytes := [116, 48]
+def bT2 : Bytes := [116, 50]
+def bT3 : Bytes := [116, 51]
+def bA0 : Bytes := [97, 48]
+def bA1 : Bytes := [97, 49]
+def b2 : Bytes := [50]
+def b3 : Bytes := [51]
+
+theorem jrep_empty : JRep [] ⟨fun _ => none, fun _ => none⟩ := by
+  refine ⟨?_, ?_, ?_⟩ <;> intro p _ <;> exact ⟨fun _ => rfl, fun _ _ _ => rfl⟩
+
+/-- kvs of a committed left row (what `join_single_op_refines_partial` writes for an Add). -/
+def kvLeft (tx g a st : Bytes) : List KV := kvAddJ tx a st ++ kvAddL tx g a
+
+/-- S-C10d store: games g1 = 2, g2 = 3; left row t3 -> g1, addr a1. -/
+def specD : JSpec :=
+  ⟨fun p => if p = bT3 then some (bG1, bA1) else none,
+   fun p => if p = bG2 then some b3 else if p = bG1 then some b2 else none⟩
+def dbD : TDB := applyKVs (applyKVs (applyKVs [] (kvAddR bG1 b2)) (kvAddR bG2 b3)) (kvLeft bT3 bG1 bA1 b2)
+
+theorem jrep_dbD : JRep dbD specD := by
+  have h1 := jrep_put_right [] ⟨fun _ => none, fun _ => none⟩ bG1 b2 jrep_empty (by decide) rfl
+    (by intro tx la h; cases h)
+  have h2 := jrep_put_right _ _ bG2 b3 h1 (by decide) (by decide) (by intro tx la h; cases h)
+  have h3 := jrep_add _ _ bT3 bG1 bA1 b2 (kvLeft bT3 bG1 bA1 b2) h2 (by decide) rfl (by decide)
+    (fun _ _ => rfl)
+  exact jrep_congr _ _ specD (fun p => by simp [specD]) (fun p => by simp [specD]) h3
+
+/-- REFUTED (S-C10d): a single Replace that moves left row t3 from game g1 to game g2 with the same
+addr leaves the join entry of t3 under status 2 in the db.  corpus/C10/join_s_c10d.ops. -/
+theorem join_single_op_refines_full_false : ¬ join_single_op_refines_full := by
+  intro h
+  obtain ⟨_, kvs, jt2, hsave, hjrep⟩ := h dbD specD (.replace bT3 bG2 bA1) jrep_dbD
+    (by
+      intro tx la hL
+      simp only [specD] at hL
+      by_cases ht : tx = bT3
+      · simp [ht] at hL; subst hL; exact ⟨by decide, by decide⟩
+      · simp [ht] at hL)
+    (by decide) ⟨by decide, by decide⟩
+  have hk : (match saveJoin dbD (execL dbD initJT (.replace bT3 bG2 bA1)).1 with
+      | .ok (k, _) => some k | .error _ => none) =
+      some [(dataKey leftCfg bT3, some (.row bT3 (leftRow bT3 bG2 bA1))),
+            (indexKey leftCfg nGameID bG1 bT3, none), (indexKey leftCfg nGameID bG2 bT3, some (.pk bT3))] := by
+    decide
+  rw [hsave] at hk
+  simp only [Option.some.injEq] at hk
+  subst hk
+  have := ((repRow_join _ _ _).1 (hjrep.2.2 bT3 (by decide))).2 (joinKey [] b2)
+  revert this
+  decide
+
+/-- FULL statement for a batch: right operations and left operations, every primary key of either
+table touched at most once between two saves, referential integrity kept, foreign keys kept. -/
+def join_batch_refines_full : Prop :=
+  ∀ (db : TDB) (s : JSpec) (rops : List ROp) (lops : List LOp),
+    JRep db s → Integrity s → (rops.map ROp.g).Nodup → (lops.map LOp.tx).Nodup →
+    (∀ op ∈ rops, NoSep op.g ∧ ROpOK (specBatch s [] lops) op) →
+    (∀ op ∈ lops, NoSep op.tx ∧ LOpOK (specBatch s rops []) op) →
+    ∃ kvs jt2, saveJoin db (runBatch db initJT rops lops) = .ok (kvs, jt2) ∧
+      JRep (applyKVs db kvs) (specBatch s rops lops)
+
+/-- S-C10e store: game g0 = 2; left rows t0 -> g0 (addr a1), t2 -> g0 (addr a0). -/
+def specE : JSpec :=
+  ⟨fun p => if p = bT2 then some (bG0, bA0) else if p = bT0 then some (bG0, bA1) else none,
+   fun p => if p = bG0 then some b2 else none⟩
+def dbE : TDB :=
+  applyKVs (applyKVs (applyKVs [] (kvAddR bG0 b2)) (kvLeft bT0 bG0 bA1 b2)) (kvLeft bT2 bG0 bA0 b2)
+
+theorem jrep_dbE : JRep dbE specE := by
+  have h1 := jrep_put_right [] ⟨fun _ => none, fun _ => none⟩ bG0 b2 jrep_empty (by decide) rfl
+    (by intro tx la h; cases h)
+  have h2 := jrep_add _ _ bT0 bG0 bA1 b2 (kvLeft bT0 bG0 bA1 b2) h1 (by decide) rfl (by decide) (fun _ _ => rfl)
+  have h3 := jrep_add _ _ bT2 bG0 bA0 b2 (kvLeft bT2 bG0 bA0 b2) h2 (by decide) (by decide) (by decide)
+    (fun _ _ => rfl)
+  exact jrep_congr _ _ specE (fun p => by simp [specE]) (fun p => by simp [specE]) h3
+
+/-- REFUTED (S-C10e): one save carrying the update of game g0 (2 → 3) and the deletion of left row
+t2 that names g0 writes a join entry for the deleted row under status 3.
+corpus/C10/join_s_c10e.ops. -/
+theorem join_batch_refines_full_false : ¬ join_batch_refines_full := by
+  intro h
+  obtain ⟨kvs, jt2, hsave, hjrep⟩ := h dbE specE [.replace bG0 b3] [.del bT2] jrep_dbE
+    (by
+      intro tx la hL
+      simp only [specE] at hL
+      by_cases h2 : tx = bT2
+      · simp [h2] at hL; subst hL; exact ⟨by decide, by decide⟩
+      · by_cases h0 : tx = bT0
+        · simp [h2, h0] at hL
+          have : bT0 ≠ bT2 := by decide
+          simp [this] at hL; subst hL; exact ⟨by decide, by decide⟩
+        · simp [h2, h0] at hL)
+    (by decide) (by decide)
+    (by intro op hop; simp only [List.mem_singleton] at hop; subst hop; exact ⟨by decide, trivial⟩)
+    (by intro op hop; simp only [List.mem_singleton] at hop; subst hop; exact ⟨by decide, trivial⟩)
+  have hk : ((match saveJoin dbE (runBatch dbE initJT [.replace bG0 b3] [.del bT2]) with
+      | .ok (k, _) => some k | .error _ => none).map
+        (fun k => overlay (lastW k (indexKey joinCfg jS (joinKey [] b3) bT2)) none)) = some (some (.pk bT2)) := by
+    decide
+  rw [hsave] at hk
+  simp only [Option.map_some, Option.some.injEq] at hk
+  have := ((repRow_join _ _ _).1 (hjrep.2.2 bT2 (by decide))).2 (joinKey [] b3)
+  rw [get_applyKVs] at this
+  have hdb : get dbE (indexKey joinCfg jS (joinKey [] b3) bT2) = none := by decide
+  rw [hdb, hk] at this
+  revert this
+  decide
+
+/-- non-vacuity of `join_single_op_refines_partial`: on the S-C10e store (one game named by two left
+rows) the hypotheses hold for an Update of the addr of t0, a Del of t2 and an Add of t3. -/
+example :
+    JRep dbE specE ∧ LOpOK specE (.update bT0 bG0 bA0) ∧ LOpOK specE (.add bT3 bG0 bA1) ∧
+    (execL dbE initJT (.update bT0 bG0 bA0)).2 = .ok ∧ (execL dbE initJT (.add bT0 bG0 bA0)).2 = .dup := by
+  refine ⟨jrep_dbE, ⟨by decide, by decide, ?_⟩, ⟨by decide, by decide⟩, by decide, by decide⟩
+  intro la hL
+  have : specE.L bT0 = some (bG0, bA1) := by decide
+  rw [this] at hL
+  cases hL; rfl
+
+end C10J
